@@ -544,6 +544,236 @@ def create_cases(rng, tier):
 
 
 # ------------------------------------------------------------------------------------------------
+# (a5) republish: create_stream into a blob directory that is NOT clean — the same bytes were published there
+#      before with the same key / IV sequence and some of its data blob files were since damaged (same size),
+#      truncated, extended or removed; or files were planted under the blob names before a first publish.
+#      Property clause: whenever the publish returns a descriptor, every data blob it names is the SHA-384 of the
+#      bytes stored under that name and decrypting in descriptor order reproduces the file (refusing is allowed).
+# ------------------------------------------------------------------------------------------------
+
+def _publish(loop, env, fp, key, ivs, old_sort):
+    return StreamDescriptor.create_stream(loop, env.blob_dir, fp, key, iter(ivs), old_sort=old_sort,
+                                          blob_completed_callback=env.bm.blob_completed)
+
+
+async def impl_republish(loop, case):
+    maxb = case['maxb']
+    set_maxb(maxb)
+    data = gen_data(case['data'])
+    key = bytes.fromhex(case['key'])
+    ivs = gen_ivs(case, n_pieces(len(data), maxb) + 1)
+    old_sort = bool(case.get('old_sort', False))
+    # the names the data blobs must get: SHA-384 of AES-CBC/PKCS7 of each piece (independent of lbry)
+    pieces = [data[i:i + maxb - 1] for i in range(0, len(data), maxb - 1)]
+    want_cts = [aes_enc(key, ivs[i], p) for i, p in enumerate(pieces)]
+    want_names = [hashlib.sha384(c).hexdigest() for c in want_cts]
+    env = Env(loop)
+    await env.open()
+    obs, raw = {}, {'data': data, 'key': key, 'ivs': ivs, 'want_names': want_names, 'want_cts': want_cts}
+    try:
+        src_dir = os.path.join(env.dir, 'src')
+        os.mkdir(src_dir)
+        fp = os.path.join(src_dir, case['name'])
+        with open(fp, 'wb') as f:
+            f.write(data)
+        if case.get('first', True):
+            try:
+                first = await _publish(loop, env, fp, key, ivs, old_sort)
+                raw['first_names'] = [b.blob_hash for b in first.blobs[:-1]]
+            except OSError as e:
+                raw['first_error'] = repr(e)
+        # what happened to the directory since
+        for ev in case['pre']:
+            i = ev['blob']
+            if i >= len(want_names):
+                continue
+            p = os.path.join(env.blob_dir, want_names[i])
+            st = ev['state']
+            if st == 'damaged' and os.path.isfile(p):          # same size, other bytes
+                b = bytearray(open(p, 'rb').read())
+                for j in range(ev['off'] % len(b), min(len(b), ev['off'] % len(b) + ev['n'])):
+                    b[j] ^= ev['xor']
+                open(p, 'wb').write(bytes(b))
+            elif st == 'truncated' and os.path.isfile(p):
+                b = open(p, 'rb').read()
+                open(p, 'wb').write(b[:max(0, len(b) - ev['n'])])
+            elif st == 'extended' and os.path.isfile(p):
+                open(p, 'ab').write(bytes([ev['xor']]) * ev['n'])
+            elif st == 'removed' and os.path.isfile(p):
+                os.remove(p)
+            elif st == 'planted':                               # right size, unrelated content
+                open(p, 'wb').write(random.Random(ev['xor']).randbytes(len(want_cts[i])))
+            elif st == 'planted_short':
+                open(p, 'wb').write(random.Random(ev['xor']).randbytes(max(0, len(want_cts[i]) - ev['n'])))
+        before = {}
+        for nm in sorted(os.listdir(env.blob_dir)):
+            before[nm] = open(os.path.join(env.blob_dir, nm), 'rb').read()
+        raw['before'] = before
+        try:
+            sd = await asyncio.wait_for(_publish(loop, env, fp, key, ivs, old_sort), 20)
+        except OSError as e:
+            obs['error'] = 'OSError'
+            raw['error'] = repr(e)
+            return obs, raw
+        obs['error'] = None
+        obs['desc'] = desc_obs(sd)
+        obs['sd_hash'] = sd.sd_hash
+        raw['sd'] = sd
+        cts = []
+        for b in sd.blobs[:-1]:
+            p = os.path.join(env.blob_dir, b.blob_hash)
+            cts.append(open(p, 'rb').read() if os.path.isfile(p) else None)
+        raw['cts'] = cts
+        sd_path = os.path.join(env.blob_dir, sd.sd_hash)
+        raw['sd_bytes'] = open(sd_path, 'rb').read() if os.path.isfile(sd_path) else None
+        raw['dir_listing'] = sorted(os.listdir(env.blob_dir))
+        big = maxb >= 2 ** 16
+        obs['cts'] = [None if c is None else (hashlib.sha384(c).hexdigest() if big else c.hex()) for c in cts]
+        obs['sd_blob'] = None if raw['sd_bytes'] is None else raw['sd_bytes'].hex()
+        return obs, raw
+    finally:
+        await env.close()
+        set_maxb(REAL_MAXB)
+
+
+def republish_history(case, raw):
+    """the directory history in words, for the failing-input report"""
+    out = []
+    for ev in case['pre']:
+        if ev['blob'] < len(raw['want_names']):
+            out.append('data blob %d %s' % (ev['blob'], ev['state']))
+    return ('%s; then ' % ('first publish' if case.get('first', True) else 'no earlier publish')) + \
+        (', '.join(out) or 'directory untouched') + '; then the same file published with the same key and IVs'
+
+
+def monitor_republish(case, obs, raw):
+    maxb = case['maxb']
+    data, key, ivs = raw['data'], raw['key'], raw['ivs']
+    hist = republish_history(case, raw)
+    if 'first_error' in raw:
+        return 'the first publish into a clean directory was refused: %s' % raw['first_error']
+    if obs.get('error'):
+        # refusing is allowed when a file of that name was in the way (or the stream repeats a blob)
+        in_way = [i for i, nm in enumerate(raw['want_names']) if nm in raw['before']]
+        if not in_way and len(set(raw['want_names'])) == len(raw['want_names']):
+            return 'publish refused with %s although no file under a data blob\'s name was there (%s)' % (
+                raw.get('error'), hist)
+        return None
+    sd = raw['sd']
+    npz = n_pieces(len(data), maxb)
+    if len(sd.blobs) != npz + 1:
+        return 'descriptor has %d blobs, expected %d (%s)' % (len(sd.blobs), npz + 1, hist)
+    plain = b''
+    for i, b in enumerate(sd.blobs[:-1]):
+        ct = raw['cts'][i]
+        if ct is None:
+            return 'data blob %d (%s…) named by the descriptor is not on disk (%s)' % (i, b.blob_hash[:12], hist)
+        if len(ct) > 16 * ((maxb - 1) // 16 + 1):
+            return 'data blob %d has %d bytes > MAX_BLOB_SIZE %d (%s)' % (i, len(ct), maxb, hist)
+        if hashlib.sha384(ct).hexdigest() != b.blob_hash:
+            was = raw['before'].get(b.blob_hash)
+            return ('data blob %d (%s…) is not named by the SHA-384 of the bytes stored under its name: the file that '
+                    'was already in the blob directory (%s) was adopted as the stream\'s blob unchecked (%s)'
+                    % (i, b.blob_hash[:12], 'same bytes as before the publish' if was == ct else 'rewritten', hist))
+        if len(ct) != b.length or b.blob_num != i or b.iv != ivs[i].hex():
+            return 'data blob %d entry %r does not describe the stored blob (%s)' % (i, (b.blob_num, b.length, b.iv), hist)
+        try:
+            plain += aes_dec(bytes.fromhex(sd.key), bytes.fromhex(b.iv), ct)
+        except Exception as e:
+            return 'data blob %d does not decrypt with the descriptor key/iv: %r (%s)' % (i, e, hist)
+    if plain != data:
+        return 'decrypting the blobs in descriptor order does not reproduce the file (%s)' % hist
+    sdb = raw['sd_bytes']
+    if sdb is None or hashlib.sha384(sdb).hexdigest() != sd.sd_hash:
+        return 'sd_hash is not the SHA-384 of a stored sd blob (%s)' % hist
+    try:
+        dec = json.loads(sdb.decode())
+    except Exception as e:
+        return 'sd blob is not JSON: %r' % e
+    want = {'stream_type': 'lbryfile', 'stream_name': case['name'].encode().hex(), 'key': key.hex(),
+            'suggested_file_name': sd.suggested_file_name.encode().hex(), 'stream_hash': sd.stream_hash,
+            'blobs': [dict({'length': b.length, 'blob_num': b.blob_num, 'iv': b.iv},
+                           **({'blob_hash': b.blob_hash} if b.blob_hash else {})) for b in sd.blobs]}
+    if dec != want:
+        return 'sd blob content differs from the descriptor (%s)' % hist
+    if sd.stream_hash != spec_stream_hash(case['name'], key.hex(), sd.suggested_file_name, want['blobs']):
+        return 'stream_hash is not the SHA-384 commitment over the descriptor content (%s)' % hist
+    if set(raw['dir_listing']) != {b.blob_hash for b in sd.blobs[:-1]} | {sd.sd_hash}:
+        return 'blob directory holds %r, expected the data blobs and the sd blob only (%s)' % (raw['dir_listing'], hist)
+    return None
+
+
+def check_republish(run, model, loop, case):
+    obs, raw = loop.run_until_complete(impl_republish(loop, case))
+    run.case(case, nontrivial=case['data']['size'] > 0 and bool(case['pre']))
+    states = sorted({ev['state'] for ev in case['pre'] if ev['blob'] < len(raw['want_names'])})
+    run.count('republish:%s' % ('refused' if obs.get('error') else 'published'))
+    for st in states:
+        run.count('republish:' + st)
+    bad = monitor_republish(case, obs, raw)
+    if bad:
+        run.violation(case, bad, signature={'op': 'republish', 'maxb': case['maxb'], 'name': case['name'],
+                                            'key': case['key'], 'data': case['data'], 'first': case.get('first', True),
+                                            'pre': case['pre']})
+        return
+    r = model.call('create_in', maxb=case['maxb'], old_sort=bool(case.get('old_sort', False)),
+                   dir=[{'name': nm.encode().hex(), 'size': len(v)} for nm, v in sorted(raw['before'].items())],
+                   name=[ord(c) for c in case['name']], key=raw['key'].hex(),
+                   ivs=[iv.hex() for iv in raw['ivs']], file=raw['data'].hex())
+    if r is None:
+        mod = {'error': 'OSError'}
+    else:
+        big = case['maxb'] >= 2 ** 16
+        mod = {'error': None, 'desc': r['desc'], 'sd_hash': bytes.fromhex(r['sd_hash']).decode(),
+               'cts': [hashlib.sha384(bytes.fromhex(c)).hexdigest() if big else c for c in r['cts']],
+               'sd_blob': r['sd_blob']}
+    run.compare('C02.create_stream_in', case, obs, mod)
+
+
+def republish_cases(rng, tier):
+    cases = []
+
+    def mk(maxb, nblobs, pre, first=True, **kw):
+        c = maxb - 1
+        size = (nblobs - 1) * c + rng.randrange(1, c + 1)
+        return {'op': 'republish', 'maxb': maxb, 'old_sort': bool(kw.get('old_sort', False)), 'first': first,
+                'name': kw.get('name', 'notes.txt'), 'key': rng.randbytes(kw.get('keylen', 16)).hex(),
+                'iv_mode': kw.get('iv_mode', 'counter'), 'iv_seed': rng.randrange(1 << 30),
+                'data': {'size': size, 'kind': 'random', 'seed': rng.randrange(1 << 30)}, 'pre': pre}
+
+    def ev(i, state):
+        return {'blob': i, 'state': state, 'off': rng.randrange(0, 4096), 'n': rng.randrange(1, 17),
+                'xor': rng.randrange(1, 256)}
+
+    resized = ['truncated', 'extended']
+    for maxb in (32, 256):
+        for n in (1, 3, 5):
+            # one data blob damaged in place, every other one removed -> only the damaged file is in the way
+            v = rng.randrange(n)
+            cases.append(mk(maxb, n, [ev(i, 'damaged' if i == v else 'removed') for i in range(n)]))
+            # one damaged, the others still there intact
+            v = rng.randrange(n)
+            cases.append(mk(maxb, n, [ev(v, 'damaged')], old_sort=rng.random() < 0.3))
+            # every data blob file is gone: publishing again must succeed and write them again
+            cases.append(mk(maxb, n, [ev(i, 'removed') for i in range(n)], keylen=rng.choice([16, 24, 32])))
+            # files that changed size (the code deletes them and refuses)
+            cases.append(mk(maxb, n, [ev(i, rng.choice(resized + ['removed'])) for i in range(n)]))
+            # nothing published before, but files sit under the names the blobs will get
+            v = rng.randrange(n)
+            cases.append(mk(maxb, n, [ev(v, 'planted')], first=False, iv_mode='random'))
+            cases.append(mk(maxb, n, [ev(i, 'planted_short') for i in range(n) if rng.random() < 0.5], first=False))
+    cases.append(mk(48, 3, []))                                   # untouched directory: refused
+    for _ in range(vlib.scaled(tier, 14, 600)):
+        n = rng.randrange(1, 7)
+        pre = [ev(i, rng.choice(['damaged', 'damaged', 'removed', 'removed', 'removed'] + resized))
+               for i in range(n) if rng.random() < 0.95]
+        cases.append(mk(rng.choice([17, 32, 33, 48, 64, 128, 255]), n, pre, old_sort=rng.random() < 0.3,
+                        iv_mode=rng.choice(['counter', 'random']), keylen=rng.choice([16, 16, 24, 32])))
+    return cases
+
+
+
+# ------------------------------------------------------------------------------------------------
 # (a2) several streams under ONE blob manager, read back through the streaming path
 #      (ManagedStream._aiter_read_stream -> StreamDownloader.cached_read_blob -> shared decrypted-blob LRU)
 # ------------------------------------------------------------------------------------------------
@@ -1981,6 +2211,8 @@ def run_case(run, model, loop, case, tdir):
     if op == 'create':
         c = {k: v for k, v in case.items()}
         check_create(run, model, loop, c)
+    elif op == 'republish':
+        check_republish(run, model, loop, case)
     elif op == 'multi':
         check_multi(run, model, loop, case)
     elif op == 'daemon':
@@ -2013,7 +2245,7 @@ def main(run):
                 'imports it: sizes 0,1,2,15,16,17 and k*(maxb-1)+-2, multiples of 16 around them, 16/24/32-byte keys, '
                 'random/counter/constant IV sequences, random/zero/padding-like/periodic contents, odd file names, plus '
                 'true 2 MiB runs, both descriptor layouts (old_sort false/true); each published stream is loaded back with from_stream_descriptor_blob and saved with '
-                'ManagedStream._save_file. (a2) 2-4 streams (equal and different sizes, shared key or shared content) published under ONE blob manager, reloaded, and read twice and in shuffled order, with range-request style partial reads and saving reads in between, through ManagedStream._aiter_read_stream -> StreamDownloader.cached_read_blob (shared decrypted-blob LRU of default size 32, tiny, or off). (a3) the daemon path: StreamManager.create then the real ManagedStream.save_file, and hand-made consistent descriptors carrying unsanitised names (path traversal, NUL, controls, DOS names, Unicode blanks, NFD) loaded through BlobManager.get_stream_descriptor + ManagedStream: suggested_file_name, file_name, the saved path and content. (a4) histories: the real ManagedStream.save_file cancelled after the k-th blob write (k = 1..n+1; stop_tasks, stop, a second save_file) then saved again; HTTP range requests through the real stream_file (mocked request, collected body) for starts around every multiple of MAX_BLOB_SIZE-1 and MAX_BLOB_SIZE-2, small configured constant and the real 2 MiB one; a restart after the sd blob file was lost (StreamManager.initialize_from_database -> recover_streams) for descriptors with unsanitised names. Round trips also run with the non-default save_blobs=False; names include decomposed Unicode, tamperings include the NFC/NFD twin of a committed name. (b) every tampering op x every field (flip/case/truncate/extend/empty/'
+                'ManagedStream._save_file. (a2) 2-4 streams (equal and different sizes, shared key or shared content) published under ONE blob manager, reloaded, and read twice and in shuffled order, with range-request style partial reads and saving reads in between, through ManagedStream._aiter_read_stream -> StreamDownloader.cached_read_blob (shared decrypted-blob LRU of default size 32, tiny, or off). (a3) the daemon path: StreamManager.create then the real ManagedStream.save_file, and hand-made consistent descriptors carrying unsanitised names (path traversal, NUL, controls, DOS names, Unicode blanks, NFD) loaded through BlobManager.get_stream_descriptor + ManagedStream: suggested_file_name, file_name, the saved path and content. (a5) republish histories on ONE blob directory: the same file published again with the same key / IV sequence after 0..n of its data blob files were damaged in place (same size), truncated, extended or removed, and first publishes into a directory where files of the right or a shorter size were planted under the names the blobs will get (1-6 blobs, both layouts): a returned descriptor must name every data blob by the SHA-384 of its stored bytes and decrypt to the file; refusal needs a file of that name in the way; compared with create_stream_in. (a4) histories: the real ManagedStream.save_file cancelled after the k-th blob write (k = 1..n+1; stop_tasks, stop, a second save_file) then saved again; HTTP range requests through the real stream_file (mocked request, collected body) for starts around every multiple of MAX_BLOB_SIZE-1 and MAX_BLOB_SIZE-2, small configured constant and the real 2 MiB one; a restart after the sd blob file was lost (StreamManager.initialize_from_database -> recover_streams) for descriptors with unsanitised names. Round trips also run with the non-default save_blobs=False; names include decomposed Unicode, tamperings include the NFC/NFD twin of a committed name. (b) every tampering op x every field (flip/case/truncate/extend/empty/'
                 'non-hex/non-ascii/bad UTF-8/type change/missing, number and length arithmetic, drop/duplicate/swap '
                 'blobs with and without renumbering and re-hashing, terminator changes, boundary shifts, malformed '
                 'JSON) of valid descriptors with 0..12 data blobs. (c) file names from an alphabet of letters, dots, '
@@ -2041,6 +2273,9 @@ def main(run):
             check_recover(run, model, loop, case)
         tamper_round(run, model, loop, rng, run.tier)
         name_round(run, model, rng, run.tier)
+        # generated last so that the draws of the older families are unchanged
+        for case in republish_cases(rng, run.tier):
+            check_republish(run, model, loop, case)
     finally:
         set_maxb(REAL_MAXB)
         shutil.rmtree(tdir, ignore_errors=True)
